@@ -490,8 +490,57 @@ theorem cleanup_all_freed {s : State} (c : Cab s) (h : Inv s) :
 
 theorem cleanup_cab {s : State} (c : Cab s) (h : Inv s) : Cab (cleanup s) := (cleanup_all_freed c h).2.2
 
+theorem SameC.logMain {s X : State} (h : SameC s X) (op : Op) (res : Res) : SameC s (logMain X op res) :=
+  h.trans ⟨rfl, rfl, rfl, rfl, rfl, fun _ => ⟨rfl, rfl, rfl⟩, fun _ h => h⟩
+
+theorem SameC.abort {s X : State} (h : SameC s X) : SameC s (abort X) := h.trans (Woke.abort X).sameC
+
+/-- a call from the main context never touches the cabinet -/
+theorem mainCall_sameC (s : State) (op : Op) : SameC s (mainCall s op) := by
+  cases op with
+  | send c v =>
+    simp only [mainCall]
+    have := (SameC.refl s).wake (s.ch c).tokens (s.ch c).queue.isEmpty
+    cases hw : wake s (s.ch c).tokens (s.ch c).queue.isEmpty with
+    | mk s1 toks => rw [hw] at this; simp only []; exact (this.setCh _ _).logMain _ _
+  | release k =>
+    simp only [mainCall]
+    have := (SameC.refl s).wake (s.sm k).tokens (decide ((s.sm k).count = 0))
+    cases hw : wake s (s.sm k).tokens (decide ((s.sm k).count = 0)) with
+    | mk s1 toks => rw [hw] at this; simp only []; exact (this.setSm _ _).logMain _ _
+  | recv c => simp only [mainCall]; split
+              · exact ((SameC.refl s).setCh _ _).logMain _ _
+              · exact (SameC.refl s).abort
+  | acquire k => simp only [mainCall]; split
+                 · exact (SameC.refl s).abort
+                 · exact ((SameC.refl s).setSm _ _).logMain _ _
+  | post b => simp only [mainCall]; exact (((SameC.refl s).wakeAll _).setBc _ _).logMain _ _
+  | cadd k v => simp only [mainCall]; exact ((SameC.refl s).setCd _ _).logMain _ _
+  | cwait k => simp only [mainCall]; split
+               · exact (SameC.refl s).logMain _ _
+               · exact (SameC.refl s).abort
+  | cpost k v =>
+    simp only [mainCall]
+    repeat' split
+    all_goals first
+      | exact (((SameC.refl s).resumeOpt _).setCd _ _).logMain _ _
+      | exact ((SameC.refl s).setCd _ _).logMain _ _
+      | exact (SameC.refl s).logMain _ _
+  | yield => exact (SameC.refl s).abort
+  | wait => exact (SameC.refl s).abort
+  | lock m => exact (SameC.refl s).abort
+  | unlock m => exact (SameC.refl s).abort
+  | bwait b => exact (SameC.refl s).abort
+  | join t => exact (SameC.refl s).abort
+  | create d now => exact (SameC.refl s).abort
+  | cancel t => exact (SameC.refl s).abort
+  | exit => exact (SameC.refl s).abort
+  | throw => exact (SameC.refl s).abort
+  | rcleanup => exact (SameC.refl s).abort
+
 theorem applyMain_cab {s : State} (op : MainOp) (c : Cab s) (h : Inv s) : Cab (applyMain s op) := by
   cases op with
+  | call op => exact (mainCall_sameC s op).cab c
   | define xf ops => exact c.of_eq rfl rfl rfl rfl rfl
   | new d now => exact create_cab d now c
   | resume r => exact ((SameC.refl s).resume r).cab c
@@ -504,7 +553,14 @@ theorem run_cab (ops : List MainOp) {s : State} (c : Cab s) (h : Inv s) (ht : s.
   | nil => exact c
   | cons op ops ih =>
     have h1 := step_inv op h ht
-    exact ih (loopPass_cab (applyMain_cab op c h)) h1.1 h1.2
+    refine ih ?_ h1.1 h1.2
+    unfold step
+    split
+    · exact c
+    · simp only []
+      split
+      · exact applyMain_cab op c h
+      · exact loopPass_cab (applyMain_cab op c h)
 
 theorem init_cab : Cab init := by
   constructor <;> simp [init, State.R]
@@ -543,6 +599,8 @@ theorem init_cab : Cab init := by
 @[simp] theorem setCd_log (s : State) (r x) : (s.setCd r x).log = s.log := rfl
 @[simp] theorem waitBlock_log_prefix (s : State) (me op rest) : s.log <+: (waitBlock s me op rest).1.log := by
   unfold waitBlock; split <;> simp [blockIn]
+
+@[simp] theorem abort_log (s : State) : (abort s).log = s.log := (Woke.abort s).log
 
 theorem execOp_log (s : State) (me : Nat) (op : Op) (rest : List Op) : s.log <+: (execOp s me op rest).1.log := by
   cases op <;> simp only [execOp] <;> repeat' split
